@@ -42,6 +42,11 @@ def configs(tier):
                     continue
                 out.append(dict(family='gillespie', entry='Gillespie_SIS', graph=g, I0=I0, R0=[], weights=w, full=False, tmax='inf',
                                 wstub='abstract', max_expo=E, truncate=True, tags=['gillespie', g, 'w:' + w]))
+    # the same law with the REAL weighted candidate sets (update / remove with their max-weight bookkeeping; only the rejection
+    # loop is replaced by a logged weighted choice): few configurations, the bookkeeping multiplies paths
+    for g, I0 in (('K2', [0]), ('P3', [1])) + ((('P3', [0]), ('K3', [0])) if tier == 'thorough' else ()):
+        out.append(dict(family='gillespie', entry='Gillespie_SIS', graph=g, I0=I0, R0=[], weights='both', full=False, tmax='inf',
+                        wstub=True, max_expo=E + 1, truncate=True, max_paths=60000, tags=['gillespie', g, 'w:both', 'real-weighted-set']))
     for g in ['K2', 'P3'] + (['K3'] if tier == 'thorough' else []):
         for I0, _ in graphs.automorphism_reduced_ics(g, with_recovered=False):
             for w in ('none', 'both') if g == 'K2' else ('none',):
